@@ -403,8 +403,13 @@ impl Dump {
                 self.kind("Break");
                 self.tok("break");
             }
-            ast::Stmt::Block(_)
-            | ast::Stmt::Import(_)
+            ast::Stmt::Block(b) => {
+                self.kind("Block");
+                self.tok("block");
+                self.tok(&clean(b.name));
+                self.stmts(&b.body);
+            }
+            ast::Stmt::Import(_)
             | ast::Stmt::FromImport(_)
             | ast::Stmt::Extends(_)
             | ast::Stmt::Include(_) => {
@@ -530,10 +535,12 @@ impl Dump {
 struct Gen {
     rng: Rng,
     budget: i32,
+    nblocks: u32,
 }
 
-const READ_NAMES: [&str; 16] = [
+const READ_NAMES: [&str; 17] = [
     "x", "y", "z", "a", "b", "item", "foo", "q", "ns", "c", "m", "n", "loop", "self", "caller", "gf",
+    "super",
 ];
 const TARGETS: [&str; 9] = ["x", "y", "z", "a", "b", "item", "q", "c", "foo"];
 const ATTRS: [&str; 6] = ["a", "b", "bar", "index", "first", "x"];
@@ -646,7 +653,13 @@ impl Gen {
                 }
             }
             8 | 9 | 10 => {
-                let callee = match self.rng.below(6) {
+                let callee = match self.rng.below(8) {
+                    6 => {
+                        let extra = if self.rng.chance(1, 6) { 1 } else { 0 };
+                        let n = std::cmp::max(1, self.nblocks) as u64 + extra;
+                        format!("self.b{}", self.rng.below(n))
+                    }
+                    7 => (*self.rng.pick(&["super", "loop", "self.b0"])).to_string(),
                     0 => "gf".to_string(),
                     1 => format!("{}.{}", self.postfix_base(d), self.rng.pick(&ATTRS)),
                     2 => (*self.rng.pick(&MACROS)).to_string(),
@@ -802,8 +815,24 @@ impl Gen {
                 let target = if self.rng.chance(3, 4) { self.target_name().to_string() } else { self.target() };
                 let iter = self.iterable(1);
                 let filt = if self.rng.chance(1, 4) { format!(" if {}", self.expr(1)) } else { String::new() };
-                let rec = if self.rng.chance(1, 8) { " recursive" } else { "" };
-                let body = self.body(d + 1, true, in_macro);
+                let rec = if self.rng.chance(1, 5) { " recursive" } else { "" };
+                let mut body = self.body(d + 1, true, in_macro);
+                if !rec.is_empty() && self.rng.chance(2, 3) {
+                    // re-enter the loop somewhere: plain, captured, through an alias, from a with
+                    let arg = self.iterable(2);
+                    let call = match self.rng.below(5) {
+                        0 => format!("{{{{ loop({}) }}}}", arg),
+                        1 => format!("{{{{ loop({}) ~ 1 }}}}", arg),
+                        2 => format!("{{% set o = loop %}}{{% for w in {} %}}{{{{ o({}) }}}}{{% endfor %}}", self.iterable(2), arg),
+                        3 => format!("{{% with {} = 1 %}}{{{{ loop({}) }}}}{{{{ {} }}}}{{% endwith %}}", self.target_name(), arg, self.name()),
+                        _ => format!("{{% if {} %}}{{{{ loop({}) }}}}{{% endif %}}", self.expr(2), arg),
+                    };
+                    if self.rng.chance(1, 2) {
+                        body.push_str(&call);
+                    } else {
+                        body = format!("{}{}", call, body);
+                    }
+                }
                 let els = if self.rng.chance(1, 3) {
                     format!("{{% else %}}{}", self.body(d + 1, in_loop, in_macro))
                 } else {
@@ -877,6 +906,12 @@ impl Gen {
                 format!("{{% do {}({}) %}}", callee, self.args(1))
             }
             27 if in_loop => (*self.rng.pick(&["{% continue %}", "{% break %}"])).to_string(),
+            27 if !in_macro && self.rng.chance(2, 3) => {
+                let k = self.nblocks;
+                self.nblocks += 1;
+                let body = self.body(d + 1, false, false);
+                format!("{{% block b{} %}}{}{{% endblock %}}", k, body)
+            }
             27 => format!("{{{{ {} }}}}", self.expr(0)),
             28 => format!("{{% set ns = namespace() %}}{{% set ns.{} = {} %}}", self.rng.pick(&ATTRS), self.expr_no_ns(1)),
             _ => {
@@ -938,6 +973,18 @@ const CORPUS: &[&str] = &[
     "{% macro m() %}{% set x = x %}{% endmacro %}{% set x = 1 %}{{ m() }}",
     "{% if c %}{% macro m() %}{{ x }}{% endmacro %}{% endif %}{{ m() }}",
     "{% with x = 1 %}{% macro m() %}{{ x }}{{ y }}{% endmacro %}{{ m() }}{% endwith %}{{ m }}",
+    "{{ self.b() }}{% set x = 1 %}{% block b %}{{ x }}{% endblock %}",
+    "{% set x = 1 %}{% macro m() %}{{ self.b() }}{% endmacro %}{{ m() }}{% block b %}{{ x }}{{ y }}{% endblock %}",
+    "{% block b %}{{ super }}{{ super() }}{% endblock %}",
+    "{% for i in y|l %}{% block b %}{{ i }}{{ loop }}{% endblock %}{% endfor %}",
+    "{% block a %}{% set u = 1 %}{% block b %}{{ u }}{% endblock %}{% endblock %}{{ self.b() }}",
+    "{% for a in y|l recursive %}{% if c %}{% continue %}{% endif %}{% with w = 1 %}{{ loop(a|l) }}{{ q }}{{ w }}{% endwith %}{% endfor %}",
+    "{% set x = 1 %}{% for a in y|l recursive %}{{ x }}{% macro m() %}{{ loop(z|l) ~ 1 }}{% endmacro %}{{ m() }}{% endfor %}",
+    "{% set ns = namespace() %}{% with x = 1 %}{% for a in y|l recursive %}{% set ns.l = loop %}{{ x }}{% endfor %}{% endwith %}{% set l = ns.l %}{{ l(z|l) }}",
+    "{% for a in y|l recursive %}{% set o = loop %}{% for b in z|l %}{{ o(q|l) }}{{ b }}{% endfor %}{% endfor %}",
+    "{% for a in y|l %}{{ a }}{% break %}{{ z }}{% endfor %}{% for a in y|l %}{% set k %}{% continue %}{% endset %}{{ k }}{% endfor %}",
+    "{% for a in y|l %}{% for b in z|l %}x{% else %}{% continue %}{% endfor %}{{ q }}{% endfor %}",
+    "{{ foo.bar.baz }}{% set x = cfg.a %}{{ x.y }}{{ cfg }}{{ f(a).b.c }}{{ a.b[c.d].e }}",
     "#expr# [foo, bar.baz]",
     "#expr# foo[a:b] ~ loop ~ self ~ self.x() ~ loop(q)",
 ];
@@ -1104,7 +1151,7 @@ fn for_each_source(tier: &str, f: &mut dyn FnMut(&str)) {
     let mut master = Rng::new(seed_from_env());
     for i in 0..n_generated(tier) {
         let s = master.next();
-        let mut g = Gen { rng: Rng::new(s), budget: 0 };
+        let mut g = Gen { rng: Rng::new(s), budget: 0, nblocks: 0 };
         // sizes: mostly small (few executions), some larger
         g.budget = match i % 4 {
             0 => 12,
